@@ -330,12 +330,21 @@ func (x *SX) Run(fd *ast.FuncDecl) []*Path {
 	for i := range outs {
 		if (outs[i].kind == "return" || outs[i].kind == "") && len(outs[i].vals) == 0 && len(named) > 0 {
 			for _, o := range named {
-				outs[i].vals = append(outs[i].vals, outs[i].st.env[o])
+				outs[i].vals = append(outs[i].vals, x.namedResult(o, outs[i].st))
 			}
 			outs[i].kind = "return"
 		}
 	}
 	return x.finish(outs)
+}
+
+// namedResult: the value a bare return hands back for the named result o — the variable's memory when its address was taken
+// (json.Unmarshal(…, &result)), its current binding otherwise.
+func (x *SX) namedResult(o types.Object, st *sxState) Term {
+	if x.addrTaken[o] {
+		return TDeref{X: TAddr{TVar{o}}, Epoch: st.heap}
+	}
+	return st.env[o]
 }
 
 // RunStmts executes a statement list (e.g. a loop body) with a given initial environment.
@@ -2178,7 +2187,7 @@ func (x *SX) inline(ft *ast.FuncType, body *ast.BlockStmt, recvObj types.Object,
 			vals := o.vals
 			if len(vals) == 0 && len(named) > 0 {
 				for _, n := range named {
-					vals = append(vals, o.st.env[n])
+					vals = append(vals, x.namedResult(n, o.st))
 				}
 			}
 			var val Term
